@@ -88,6 +88,10 @@ type ReplayFile struct {
 	// runs: code under test that keeps state in process memory (a cache, a counter) across independent
 	// histories is then reproduced faithfully.
 	Warmup *WarmupSpec `json:"warmup,omitempty"`
+	// OriginalChoices: the choice list as found, before minimisation.  When the code under test keeps state
+	// in process memory the minimiser's own candidate executions feed that state, and the minimised list
+	// may only fail in the minimising process; the list as found, after the warm-up, is then the replay.
+	OriginalChoices []int `json:"original_choice_list,omitempty"`
 }
 
 type WarmupSpec struct {
@@ -565,6 +569,9 @@ func minimiseAndWrite(e Engine, r *Run, v *Violation, cfg map[string]string, kno
 	}
 	rf := ReplayFile{Engine: e.Name(), Property: r.Property, Tier: r.Tier, Seed: r.Seed, Run: r.Index, Cfg: cfg,
 		Choices: best, Labels: labels, Expect: *bestV, Trace: bestTrace, Original: len(orig), Warmup: curWarmup}
+	if len(orig) != len(best) {
+		rf.OriginalChoices = orig
+	}
 	dir := filepath.Join(verifRoot(), "replays")
 	os.MkdirAll(dir, 0o755)
 	path := filepath.Join(dir, fmt.Sprintf("%s-%d-%d.json", r.Property, r.Seed, r.Index))
@@ -627,6 +634,16 @@ func doReplay(e Engine, path string) int {
 		}
 		if rc := replayOnce(); rc != 0 {
 			return rc
+		}
+		if v == nil && len(rf.OriginalChoices) > 0 {
+			// the minimised list may depend on state the minimiser's own executions left behind
+			rf.Choices = rf.OriginalChoices
+			if rc := replayOnce(); rc != 0 {
+				return rc
+			}
+			if v != nil {
+				fmt.Printf("UNMINIMISED: the minimised choice list does not fail outside the process that minimised it; the list as found (%d choices) does\n", len(rf.Choices))
+			}
 		}
 		if v != nil {
 			fmt.Printf("WARM-PROCESS: not reproduced in a fresh process, reproduced after the %d independent runs the finding process had executed before it (seed %d, runs %d, %d, ... < %d): the code under test keeps state in process memory across histories\n",
